@@ -57,6 +57,12 @@ impl Conn {
             Conn::Tcp(s) => s.shutdown(Shutdown::Write),
         };
     }
+    fn set_write_timeout(&mut self, d: Duration) {
+        let _ = match self {
+            Conn::Unix(s) => s.set_write_timeout(Some(d)),
+            Conn::Tcp(s) => s.set_write_timeout(Some(d)),
+        };
+    }
     fn set_timeout(&mut self, d: Duration) {
         let _ = match self {
             Conn::Unix(s) => s.set_read_timeout(Some(d)),
@@ -166,7 +172,7 @@ fn run_conc(l: &[Sx]) -> Sx {
     let clients: Vec<Sx> = l[4].as_list().unwrap()[1..].to_vec();
     let max_override: Option<usize> = l.get(5).and_then(|m| m.as_list()).and_then(|m| m.get(1)).and_then(|m| m.as_usize());
     let stall_ms: u64 = 600;
-    let has_stall = clients.iter().any(|c| c.as_list().unwrap()[1].as_atom() == Some("stall"));
+    let has_stall = clients.iter().any(|c| matches!(c.as_list().unwrap()[1].as_atom(), Some("stall") | Some("flood")));
     let addr = fresh_addr(&transport);
     let stop = Arc::new(AtomicBool::new(false));
     let built = build_service_opts(&svc, true);
@@ -207,6 +213,24 @@ fn run_conc(l: &[Sx]) -> Sx {
                 thread::sleep(Duration::from_millis(30));
                 return (true, Vec::new(), 0);
             }
+            if kind == "flood" {
+                // a peer that pipelines far more requests than fit into the socket buffers and never
+                // reads a reply: its own worker ends up blocked in write(), nobody else may be
+                conn.set_write_timeout(Duration::from_millis(stall_ms + 300));
+                let one = b"{\"method\":\"org.varlink.service.GetInfo\"}\0";
+                let mut blob = Vec::with_capacity(one.len() * 40000);
+                for _ in 0..40000 {
+                    blob.extend_from_slice(one);
+                }
+                let t = Instant::now();
+                let _ = conn.write_all(&blob);
+                let spent = t.elapsed();
+                if spent < Duration::from_millis(stall_ms + 300) {
+                    thread::sleep(Duration::from_millis(stall_ms + 300) - spent);
+                }
+                return (true, Vec::new(), 0);
+            }
+            let mut first_reply_ms: Option<u64> = None;
             for (i, ch) in chunks.iter().enumerate() {
                 if conn.write_all(ch).is_err() {
                     break;
@@ -222,9 +246,21 @@ fn run_conc(l: &[Sx]) -> Sx {
                     thread::yield_now();
                 }
             }
-            conn.shutdown_write();
             let mut got = Vec::new();
             let mut buf = [0u8; 65536];
+            if kind == "hold" {
+                // wait for the first reply, keep the connection open for a while, then finish
+                let dl = Instant::now() + Duration::from_secs(5);
+                while !got.contains(&0) && Instant::now() < dl {
+                    match conn.read(&mut buf) {
+                        Ok(0) | Err(_) => break,
+                        Ok(n) => got.extend_from_slice(&buf[..n]),
+                    }
+                }
+                first_reply_ms = Some(t_begin.elapsed().as_millis() as u64);
+                thread::sleep(Duration::from_millis(400));
+            }
+            conn.shutdown_write();
             let mut closed = false;
             let deadline = Instant::now() + Duration::from_secs(20);
             loop {
@@ -250,7 +286,7 @@ fn run_conc(l: &[Sx]) -> Sx {
                     }
                 }
             }
-            (closed, got, t_begin.elapsed().as_millis() as u64)
+            (closed, got, first_reply_ms.unwrap_or(t_begin.elapsed().as_millis() as u64))
         }));
     }
     let mut obs = Vec::new();
@@ -259,7 +295,10 @@ fn run_conc(l: &[Sx]) -> Sx {
         let cl = c.as_list().unwrap();
         let kind = cl[1].as_atom().unwrap_or("");
         // while another peer is stalled in the middle of a message, a prompt peer must not wait for it
-        let late = has_stall && (kind == "half" || kind == "dropmid") && elapsed > stall_ms * 2 / 3;
+        // (`hold` peers report the time to their FIRST reply: with free workers below the limit nobody
+        // waits for another connection to finish)
+        let late = (has_stall && (kind == "half" || kind == "dropmid") && elapsed > stall_ms * 2 / 3)
+            || (kind == "hold" && elapsed > 250);
         let total: Vec<u8> = cl[3].as_list().unwrap()[1..].iter().flat_map(|x| x.as_bytes().unwrap()).collect();
         let (replies, up) = split_up(&got);
         obs.push(sx::tagged(
@@ -704,6 +743,46 @@ impl Suite for ListenSuite {
             cases.push(Case {
                 input: sx::tagged("listen-conc", vec![sx::atom(t), sx::nat(2), cfg.sx.clone(), sx::list(cl)]),
                 tags: vec!["stalled-peer-beside-prompt-peers".into()],
+            });
+        }
+        // (b2) a peer flooding the server with requests it never reads the replies of, beside prompt peers
+        {
+            let cfg = &cfgs[1];
+            let mut clients = vec![client_sx("flood", 0, &[], &[])];
+            for k in 0..4usize {
+                let mut reqs = Vec::new();
+                tok += 1;
+                reqs.push(wire::GenReq { bytes: serde_json::to_vec(&serde_json::json!({"method":"org.varlink.service.GetInfo","parameters":{"token": format!("t{}z", tok)}})).unwrap(), kind: "getinfo".into() });
+                for _ in 0..2 {
+                    tok += 1;
+                    reqs.push(gen_request(&mut rng, cfg, &format!("t{}z", tok)));
+                }
+                let total = stream_of(&reqs);
+                clients.push(client_sx("half", 150 + 40 * k, &[total.clone()], &total));
+            }
+            let mut cl = vec![sx::atom("clients")];
+            cl.extend(clients);
+            cases.push(Case {
+                input: sx::tagged("listen-conc", vec![sx::atom("unix"), sx::nat(2), cfg.sx.clone(), sx::list(cl)]),
+                tags: vec!["flooding-peer-beside-prompt-peers".into()],
+            });
+        }
+        // (b3) a burst of peers that connect at the same moment and keep their connections open
+        for (t, initial) in [("unix", 1usize), ("tcp", 2)] {
+            let cfg = &cfgs[1];
+            let mut clients = Vec::new();
+            for _ in 0..8usize {
+                tok += 1;
+                let r = serde_json::to_vec(&serde_json::json!({"method":"org.varlink.service.GetInfo","parameters":{"token": format!("t{}z", tok)}})).unwrap();
+                let mut tt = r.clone();
+                tt.push(0);
+                clients.push(client_sx("hold", 0, &[tt.clone()], &tt));
+            }
+            let mut cl = vec![sx::atom("clients")];
+            cl.extend(clients);
+            cases.push(Case {
+                input: sx::tagged("listen-conc", vec![sx::atom(t), sx::nat(initial), cfg.sx.clone(), sx::list(cl)]),
+                tags: vec!["burst-of-long-lived-peers".into()],
             });
         }
         // (c) faulty peers sending long malformed messages with non-ASCII bytes at boundary offsets
